@@ -5,6 +5,15 @@ from .. import cooc_cfg, cooc_gen
 from ..common import pool_map
 
 
+def encode(items, seed):
+    """the same configuration can be written with default-valued kernel arguments omitted or spelled out"""
+    import random
+    rng = random.Random(seed)
+    for it in items:
+        it["explicit"] = rng.random() < 0.3
+    return items
+
+
 def judge(ctx, items, res, part, fam):
     for it, r in zip(items, res):
         ctx.evaluations += 1
@@ -31,13 +40,13 @@ def part_token(ctx):
     cfgs = cooc_cfg.quick_cfgs()
     items = cooc_gen.emit(ctx, 2, ctx.pick(3, 4), 2, cfgs, "Cooc exhaustive V=2")
     ctx.log("token exhaustive instances:", len(items))
-    res = pool_map("cooc", "run_token", items, min_chunk=200)
+    res = pool_map("cooc", "run_token", encode(items, ctx.seed), min_chunk=200)
     judge(ctx, items, res, "token_exhaustive", "token")
     # wider configuration space on V=3, one document
     cfgs = cooc_cfg.wide_cfgs(3, ctx.seed + 5, ctx.pick(40, 200))
     items = cooc_gen.emit(ctx, 3, ctx.pick(4, 5), 1, cfgs, "Cooc wide V=3")
     ctx.log("token wide instances:", len(items))
-    res = pool_map("cooc", "run_token", items, min_chunk=200)
+    res = pool_map("cooc", "run_token", encode(items, ctx.seed + 1), min_chunk=200)
     judge(ctx, items, res, "token_wide", "token")
 
 
@@ -49,7 +58,7 @@ def part_timed(ctx):
     for it in items:
         it["shifts"] = [0, 1 << 24, 1600000000]
     ctx.log("timed instances:", len(items))
-    res = pool_map("cooc", "run_timed", items, min_chunk=100)
+    res = pool_map("cooc", "run_timed", encode(items, ctx.seed + 2), min_chunk=100)
     judge(ctx, items, res, "timed", "timed")
 
 
@@ -61,7 +70,7 @@ def part_multi(ctx):
     for it in items:
         it.pop("MaxLen", None)
     ctx.log("multi instances:", len(items))
-    res = pool_map("cooc", "run_multi", items, min_chunk=100)
+    res = pool_map("cooc", "run_multi", encode(items, ctx.seed + 3), min_chunk=100)
     judge(ctx, items, res, "multi", "multi")
 
 
@@ -82,7 +91,7 @@ def part_ngram(ctx):
             ctx.exhaustive = False
             items = rng.sample(items, keep)
         ctx.log("ngram N=%d instances:" % n, len(items))
-        res = pool_map("cooc", "run_ngram", items, min_chunk=8)
+        res = pool_map("cooc", "run_ngram", encode(items, ctx.seed + 4), min_chunk=8)
         judge(ctx, items, res, "ngram", "ngram")
 
 
